@@ -129,7 +129,7 @@ func (p *Prog) synthesizeFrontends() []string {
 				// frame: only the array's own buffer (events taken from and returned to the pool inside
 				// the method are not visible to a caller that respects the ownership discipline of C06)
 				c.HasMod = true
-				c.Modifies = []string{r + ".buf"}
+				c.Modifies = []string{r + ".buf", "pooled Event", "pooled Array"}
 			}
 			addClause(&c.Requires, "requires", fmt.Sprintf("%s != nil && listbuf(%s)", r, b), nil)
 			addClause(&c.Ensures, "ensures", fmt.Sprintf("listbuf(%s) && len(%s) > old(len(%s)) && prefix(%s, old(%s))", b, b, b, b, b), nil)
